@@ -256,7 +256,7 @@ def main():
                                thorough_cmd=f'./check {pid} --tier thorough',
                                evidence_file=f'/verif/evidence/{pid}.json',
                                replay_cmd_template=f'./check {pid} --replay {{path}}', engine='tlc+replay',
-                               level_claimed=dict(category='model_checking', text=c['text'], design_ref=c['ref']),
+                               level_claimed=dict(category='model_checking', text=c['text'] + EXTRA_TEXT.get(pid, ''), design_ref=c['ref']),
                                level_note=c['note'], technique=c['technique']))
         else:
             na.append(dict(property_id=pid, reason=NA.get(pid, NOT_YET)))
@@ -280,6 +280,22 @@ def main():
 
 
 NA = {}
+
+# coverage added after the second round of seeded changes (appended to the level texts)
+EXTRA_TEXT = {'C01': ' Edges whose template reads a second variable given as a path (w*(source - x_ref)) are part of Denote (RefProgs); class RefGroupMismatch (D61) is kept out of the vectorised runs and pinned.',
+              'C02': ' A function compiled earlier must keep its precision when another model is compiled for the same backend in the other precision.',
+              'C04': ' Populations include source maps with a duplicate and a gap (index-based projection) and templated edges with path-valued inputs (D61 / D62 classes excluded, pinned / signature).',
+              'C07': ' Override values include 0 and all/ per-node arrays through node_values; a circuit derived with update_template that shares privately copied node templates with its base is explored to depth 4-5 (alias variable, deviation UpdateVarInPlaceWhenPrivate).',
+              'C09': ' An undelayed global (scalar-weight) Connectivity next to a delayed one is part of the population cases.',
+              'C10': ' (e) adaptive solver with a delayed edge (the edge becomes a past() term): exact polynomial chain, float- and integer-typed delays, three time scales.',
+              'C11': ' Plain discrete-delay kernels are part of Gamma.tla (class D59 - one source variable feeding a distributed and a discrete delay - excluded, three pinned reproducers); a coarse time scale (dt = 16) exercises the chain-grouping keys; dde_approx also in Connectivity form.',
+              'C12': ' A quarter of the models is compiled after the same equations were compiled in the same process with another state layout.',
+              'C14': ' Derive.tla (BaseUntouched) is replayed for every edit dictionary through update_template and YAML base:; the universe contains a node overriding an operator another node uses as declared (explicit dict-form variable).',
+              'C15': " Derive.tla: derived equations = token-wise edit of the parent's equations (replace, remove, append, prepend) plus the added equations verbatim, Python and YAML forms; Replace.tla uses the full delimiter set of the equation language; the round trip also re-uses a path that held another model.", 'C16': ' Also: two scalar (global) weights converging on one variable, two coupling templates that differ in a constant only.',
+              'C17': ' Also sweeps over two attributes (weight and delay) of one edge.',
+              'C18': ' STPNT must load the declared initial state into the layout FUNC reads (distinct initial values, reversed edge direction).',
+              'C19': ' One variant places the times far from the origin (2^36 + k 2^-5).',
+              'C20': ' The request matrix includes the Population/Connectivity form and both orders of mixed delay kinds; malformed models include every reserved variable name and a variable declared only by a sibling operator (both orders).'}
 
 if __name__ == '__main__':
     main()
